@@ -41,7 +41,11 @@ RULE = ('Hypothesis composite: project(name, version/license/default_options/mes
         'arguments of target and dependency calls are typed closed expressions from harness/refmesongen.Gen '
         '(parenthesised and/or/not, arithmetic associativity traps, method calls and indexing on parenthesised '
         'expressions, ternaries as operands, in / not in, strings with quote, backslash, escapes, unicode, triple-quoted '
-        'and f-strings, dicts with expression keys) accepted by the reference evaluator; legal layout variation '
+        'and f-strings, dicts with expression keys) accepted by the reference evaluator, plus (45 % of the non-literal keyword values) one of 31 '
+        'templates built around an operand position that is only right with parentheses (a - (b - c), a / (b * c), -(a + b), not (a and b), '
+        '(a or b) and c, (i in l) == b, (c ? x : y) as operand / condition / indexed object, (s + t).to_upper(), (-(a + b)).to_string() ...) over '
+        'literals, literal variables and strings with escaped quote / backslash / CR / LF / tab; commands prefer (60 %) targets whose call '
+        'carries such an argument; legal layout variation '
         '(comments, line breaks, continuations, form feeds and unicode line separators in comments) from refmeson.Printer; '
         '1-3 commands: target src_add/src_rm/extra_files_add/extra_files_rm/target_add/target_rm/info, kwargs '
         'set/delete/add/remove/remove_regex/info on target/project/dependency, default_options set/delete, through JSON '
@@ -58,6 +62,9 @@ ASSUMPTIONS = [
     'where a new keyword argument is placed is not specified; the relative order of all pre-existing arguments must be kept',
     'a one-element list and its bare element are the same value for list-typed keywords (license, default_options, version of dependency, dependencies, link_with): rewritetests pins `license: "GPL"` after a remove',
     'boolean option values are compared case-insensitively in default_options (rewritetests pins "debug=True")',
+    'a removal may be refused (exit 0, warning, files unchanged in meaning) for a source that is not an element of a list / call literal feeding one target once: `src += \'x.c\'`, `sources: \'x.c\'`, `extra_files: \'a.h\'`, a files() variable used twice in one target, a value that an identifier contributes to a string list; kwargs add/remove may be refused ("too complex") for a string-list keyword whose value is a bare identifier',
+    'a keyword that is deleted and set again within one invocation is a new keyword (its position is not specified)',
+    'trees on which `meson rewrite` refuses to work at all with a clean MesonException before any edit (method calls with keyword arguments, array.contains(<list>): the analysis hands AST nodes / flattened lists to the real method) are outside the judged domain: generated expressions of these two shapes are replaced by their literal value (counted)',
 ]
 
 TARGET_FUNCS = ['executable', 'static_library', 'shared_library', 'library', 'both_libraries', 'shared_module']
